@@ -49,7 +49,7 @@ def uniform_stack_world(rng, spherical):
         cm = []
         for _ in range(rng.randint(0, 3)):
             comps = rng.sample(range(4), rng.randint(1, 2))
-            cm.append({"model": "uniform", "compositions": comps, "fractions": [rng.choice([1, 0.5, 0.25, 0.125]) for _ in comps],
+            cm.append({"model": "uniform", "compositions": comps, "fractions": [rng.choice([1, 0.5, 0.25, 0.125, 0, 0]) for _ in comps],
                        "operation": rng.choice(["replace", "add", "subtract", "replace defined only"]),
                        "min depth": rng.choice([0, 20e3]), "max depth": rng.choice([50e3, 150e3, 300e3])})
         f["temperature models"] = tm
@@ -72,7 +72,7 @@ def uniform_stack_world(rng, spherical):
         cm = []
         for _ in range(rng.randint(0, 2)):
             comps = rng.sample(range(4), rng.randint(1, 2))
-            cm.append({"model": "uniform", "compositions": comps, "fractions": [rng.choice([1, 0.5, 0.25, 0.125]) for _ in comps],
+            cm.append({"model": "uniform", "compositions": comps, "fractions": [rng.choice([1, 0.5, 0.25, 0.125, 0, 0]) for _ in comps],
                        "operation": rng.choice(["replace", "add", "subtract", "replace defined only"]), "min depth": -1e300, "max depth": 1e300})
         # the stack oracle reads "min depth"/"max depth" of a model as its range; for line features the real keys are distances (left at their defaults)
         f["temperature models"] = [{k: v for k, v in m.items() if k not in ("min depth", "max depth")} for m in tm]
